@@ -162,6 +162,71 @@ def gen_cycle(rng):
     return d, files
 
 
+# lane S: small sources around constructs whose layout code does arithmetic on widths or offsets (generic bounds that
+# cannot be broken, where clauses, qualified paths, comments with list items or custom openers, string literals,
+# comments deep inside nested blocks), on the narrowest usable pages, with white space redrawn from the characters
+# the lexer and / or Unicode call white space
+S_SNIPPETS = [
+    "enum E<T> where T: std::iter::IntoIterator<Item = u8> { A(T), B }\n",
+    "enum Eg<T: some::quite::long::path::to::a::Trait<Assoc = u8> + Other> { A(T) }\n",
+    "pub enum Ed<T = std::collections::HashMap<String, Vec<u8>>> { A(T), B { x: T } }\n",
+    "struct Sg<T> where T: std::iter::IntoIterator<Item = u8> { a: T }\n",
+    "type A = <S as G>::R<T>;\n",
+    "fn q() { let _ = <S as G>::r::<T>(); let _ = <Vec<u8> as IntoIterator>::into_iter(v); }\n",
+    "trait Tr /* c */ <T> {}\ntrait Tr2<T> /* d */ : Sized {}\n",
+    "// a comment\n \nfn after_blank() {}\n",
+    "fn body() {\n    a(); // trailing\n \n    b();\n    /* block */\n \n    c();\n}\n",
+    "//   - item one of a list that goes on for a while and needs to be wrapped somewhere\n//   - item two\nfn li() {}\n",
+    "///   * item one of a documented list that goes on and on and on for a long while\n///   * two\nfn ld() {}\n",
+    "//→→→→→→ word word word word word word word word word word word word x\n//→→→→→→ next line\nfn co() {}\n",
+    "//!!!! banner word word word word word word word word word word word word word\nfn bn() {}\n",
+    "fn st() { let s = \"abc\"; let t = \"a long string literal that will have to be broken somewhere along the line\"; }\n",
+    "fn deep() { loop { loop { loop { loop { loop { // comment\n b(); } } } } } }\n",
+    "fn deeper() { if a { if b { if c { if d { if e { if f { /* c */ g(); // t\n } } } } } } }\n",
+    "mod m1 { mod m2 { mod m3 { mod m4 { fn f<T>() where T: Sized {} } } } }\n",
+    "impl X { fn f() { if a { fn g<T>() where T: Sized + Clone {} } } }\n",
+    "fn ch() { let x = some.long().chain().of().method().calls().that().goes().on(); }\n",
+    "macro_rules! mm { ($a:ident) => { fn $a() { let v = 1; } }; }\n",
+]
+LEX_WS = ["\u0085", "\u200e", "\u200f", "\u2028", "\u2029"]      # white space for the lexer (Pattern_White_Space)
+UNI_WS = ["\u3000", "\u00a0", "\u2003", "\u1680", "\u2028", "\u2029", "\u0085"]  # Unicode White_Space
+
+
+def gen_seeded(rng):
+    text = "".join(rng.sample(S_SNIPPETS, rng.range(1, 3)))
+    desc = []
+    if rng.chance(70):
+        # blanks become (or gain) other white space; in code only what the lexer accepts keeps the text parsable
+        chars = list(text)
+        pos = [i for i, ch in enumerate(chars) if ch == " "]
+        for i in rng.sample(pos, min(len(pos), rng.range(1, 3))):
+            line_start = text.rfind("\n", 0, i) + 1
+            in_comment = "//" in text[line_start:i] or "/*" in text[line_start:i]
+            ws = rng.choice(UNI_WS + LEX_WS if in_comment else LEX_WS)
+            chars[i] = ws if rng.chance(50) else rng.choice([ws + " ", " " + ws, ws + ws])
+        text = "".join(chars)
+        desc.append("wide-space")
+    if rng.chance(25):
+        text = text.replace('"abc"', rng.choice(['"abc"é', '"abc"suffix', 'b"abc"ß', 'r"abc"é']))
+        desc.append("literal-suffix")
+    if rng.chance(30):
+        text, d2 = rustlex.mutate(rng, text, 1)
+        desc += d2
+    tab = rng.range(1, 8)
+    lo = max(20, 5 * tab)
+    cfg = {"max_width": rng.choice([lo, lo, lo + rng.below(12), rng.range(lo, 60), 100]), "tab_spaces": tab}
+    for k, vals in (("indent_style", ["Visual", "Visual", "Block"]), ("wrap_comments", [True, True, False]),
+                    ("format_strings", [True, True, False]), ("normalize_comments", [True, False]),
+                    ("comment_width", [20, 40, 80]), ("hard_tabs", [True, False]), ("where_single_line", [True, False]),
+                    ("brace_style", ["AlwaysNextLine", "PreferSameLine", "SameLineWhere"]),
+                    ("error_on_line_overflow", [True, False]), ("error_on_unformatted", [True, False]),
+                    ("blank_lines_upper_bound", [0, 1, 4, 18446744073709551615]),
+                    ("blank_lines_lower_bound", [0, 1])):
+        if rng.chance(45):
+            cfg[k] = rng.choice(vals)
+    return text, desc, cfg
+
+
 def gen_cfg_macro(rng):
     """a tiny root file around one `cfg_if!` / `cfg_match!` call (the two macros whose bodies the module resolver parses
     itself), damaged at token level.  Tiny means: a process that has not finished within the cap is not slow, it hangs"""
@@ -199,6 +264,11 @@ def gen_cfg_macro(rng):
 
 
 def generate(rng, tier):
+    if rng.chance(6) or os.environ.get("VERIF_C16_LANE") == "S":  # (the variable: a deeper look at this lane by hand)
+        text, desc, cfg = gen_seeded(rng)
+        return {"lane": "B", "source": "seeded-constructs", "text": text, "mutations": desc or ["none"], "depth": 0, "badutf8": False,
+                "delivery": rng.choice(["root", "root", "stdin", "module"]), "config": cfg, "hashseed": rng.below(1 << 32),
+                "via": rng.choice(["file", "cli"]), "emit": rng.choice([[], ["--check"], ["--emit", "stdout"]])}
     if rng.chance(4):
         text, desc = gen_cfg_macro(rng)
         return {"lane": "T", "text": text, "mutations": desc, "emit": rng.choice([[], ["--check"], ["--emit", "stdout"]]),
